@@ -39,10 +39,17 @@ type Step struct {
 	Labels  []string  `json:"labels,omitempty"` // generator intent label per tx (parallel to Txs)
 	DtMs    int64     `json:"dt_ms,omitempty"`
 	Absent  []string  `json:"absent,omitempty"`
+	Evidence []EvidenceSpec `json:"evidence,omitempty"` // duplicate-vote evidence to include in the block
 	Replica int       `json:"replica,omitempty"`
 	Acts    []SiteAct `json:"acts,omitempty"`
 	Note    string    `json:"note,omitempty"`
 	Join    *ReplicaConf `json:"join,omitempty"` // kind "join": a new replica that syncs from genesis (late joiner)
+}
+
+// EvidenceSpec asks the driver for a real DuplicateVoteEvidence signed with a validator's key.
+type EvidenceSpec struct {
+	Validator string `json:"validator"` // tendermint address, upper-case hex
+	Height    int64  `json:"height"`    // height at which the validator double-signed (must be in the set then)
 }
 
 // ReplicaConf is the JSON form of a ReplicaSpec.
@@ -266,6 +273,12 @@ func (e *Engine) DoBlock(st *Step) (*ChainBlock, error) {
 	}
 	if len(st.Absent) > 0 {
 		e.Stats.Faults["absent_signers"]++
+	}
+	for _, es := range st.Evidence {
+		if ev := e.C.MakeDuplicateVoteEvidence(es.Validator, es.Height); ev != nil {
+			plan.Evidence = append(plan.Evidence, ev)
+			e.Stats.Faults["duplicate_vote_evidence"]++
+		}
 	}
 	cb, err := e.C.NextBlock(plan)
 	e.Stats.Blocks++
